@@ -11,15 +11,17 @@ import gossipkv_common as g
 PROPERTY = "C06"
 META = {
     "level_text": "GossipKV.tla models per node the store (value incl. tombstones, version), the local and the forwarded broadcast queue with remaining "
-                  "transmissions and the Invalidates rule, WatchKey watchers (blocking callback, capacity-1 coalescing), the set of all packets ever gossiped "
+                  "transmissions and the Invalidates rule (content superset AND version), the per-key worker with its bounded channel (Receive, merge and "
+                  "QueueBroadcast as separate steps behind a harness gate; drop when full), WatchKey watchers (blocking callback, capacity-1 coalescing), the set of all packets ever gossiped "
                   "(deliverable to any node at any later time, any number of times), push/pull, garbage packets, unknown-codec pairs in push/pull buffers, "
                   "partitions and restarts. TLC checks exhaustively (2-3 nodes, 2 ids, 3 CAS, bounded faults): a queued update is invalidated only by one "
-                  "that contains it (up to expired tombstones), only the resulting change is re-broadcast, stores contain only content some CAS wrote, a "
+                  "that contains it (up to expired tombstones; a negative-control configuration shows the version test is needed once broadcasts are queued out of "
+                  "order), only the resulting change is re-broadcast, stores contain only content some CAS wrote, a "
                   "watcher that is not blocked has seen the current value; and, under weak fairness of push/pull and callback return with bounded faults, "
                   "(<>[]Healed) => <>[](all nodes read the same value and all watchers saw it). TLC-generated behaviours with quiescence suffix are "
                   "executed on real detached KV nodes in a synctest bubble with a step-by-step comparison of every node's projection.",
-    "level_note": "Bounded: 2-3 nodes, one key, 2 instance ids, ring descriptors without token conflicts; each specification action is atomic in the harness "
-                  "(no interleaving inside a CAS / worker run / push-pull); NotifyInterval = 0; zone-aware routing, compression, TCP transport and memberlist's "
+    "level_note": "Bounded: 2-3 nodes (4 in recorded traces), one key, 2-3 entry ids; values are ring.Desc (no token conflicts) and ring.PartitionRingDesc; a CAS "
+                  "and a push/pull are atomic in the harness, a received update is split into Receive / merge / QueueBroadcast on gated nodes; NotifyInterval = 0; zone-aware routing, compression, TCP transport and memberlist's "
                   "own node-selection are outside (the harness is the network). Trusted: TLC, synctest, the projection.",
     "technique": "TLA+ specification (GossipKV.tla) model-checked by TLC (safety + liveness); TLC-generated behaviours replayed on the real memberlist KV",
     "design_ref": "DESIGN.md 2 C06",
@@ -27,9 +29,9 @@ META = {
 
 
 def run(ctx):
-    ctx.rule = ("a case is one TLC-generated behaviour (run phase with faults + quiescence suffix: heal, 2 rounds of all-pairs push/pull, release of blocked "
-                "watchers) replayed step by step on real KV nodes; non-trivial = a change made by a CAS on one node reaches another node through a delivered "
-                "packet or a push/pull; distinct = distinct action sequences")
+    ctx.rule = ("a case is one TLC-generated behaviour (run phase with faults + quiescence suffix: drain and open worker gates, heal, 2 rounds of all-pairs "
+                "push/pull, release of blocked watchers) replayed step by step on real KV nodes, or one recorded trace validated by TLC; non-trivial = a change "
+                "made by a CAS on one node reaches another node through a delivered packet, a worker step or a push/pull; distinct = distinct action sequences")
     ctx.assumptions = list(g.ASSUMPTIONS)
     quick = ctx.tier == "quick"
     g.exhaustive(ctx, "MC_c06_quick.cfg", "C06 safety (quick bounds)", timeout=900 if quick else 3000, coverage=not quick)
@@ -38,14 +40,19 @@ def run(ctx):
         g.exhaustive(ctx, "MC_c06_2n.cfg", "C06 safety (2 nodes, all fault kinds, blocking watcher)", timeout=3000, coverage=True)
         g.exhaustive(ctx, "MC_c06_live_2n.cfg", "C06 liveness (2 nodes, 2 faults, blocking watcher)", timeout=3000)
         g.exhaustive(ctx, "MC_c06_t2.cfg", "C06 safety (T=2)", timeout=3000)
+        g.exhaustive(ctx, "MC_c06_gate.cfg", "C06 safety (gated worker: Receive / merge / QueueBroadcast)", timeout=3000, coverage=True)
+        g.exhaustive(ctx, "MC_c06_gate_garbage.cfg", "C06 safety (gated worker + malformed packets)", timeout=3000)
+        g.exhaustive(ctx, "MC_c06_gate_nover.cfg", "negative control: Invalidates without the version test", timeout=1200, expect_violation="InvalidationSafe")
         g.exhaustive(ctx, "MC_c06_thorough.cfg", "C06 safety (3 nodes)", timeout=3000)
         g.exhaustive(ctx, "MC_c06_live_thorough.cfg", "C06 liveness (3 nodes)", timeout=3000)
-        g.require_action_coverage(ctx, ["ATick", "ACas", "AGossip", "ADeliver", "AGarbage", "APushPull", "AArm", "ARelease", "ARestart", "APartition", "AHeal"])
+        g.require_action_coverage(ctx, ["ATick", "ACas", "AGossip", "ADeliver", "AWork", "AGateClose", "AGateOpen", "AGarbage", "APushPull",
+                                        "AArm", "ARelease", "ARestart", "APartition", "AHeal"])
     ctx.exhaustive = False
     if quick:
-        g.generate_and_replay(ctx, "C06", "Sim_c06.cfg", num_per_worker=40, run_depth=25)
+        # gated workers on nodes 2 and 3; about a quarter of the behaviours follow the relay script; value domain alternates
+        g.generate_and_replay(ctx, "C06", "Sim_c06.cfg", num_per_worker=30, run_depth=25, domains=("mixed",))
     else:
-        g.generate_and_replay(ctx, "C06", "Sim_c06.cfg", num_per_worker=600, run_depth=30, timeout=3000)
-        g.generate_and_replay(ctx, "C06", "Sim_c06_n2.cfg", num_per_worker=300, run_depth=30, timeout=3000)
-    g.record_and_validate(ctx, ntraces=6 if quick else 150, steps=50 if quick else 80, timeout=900 if quick else 3000)
+        g.generate_and_replay(ctx, "C06", "Sim_c06.cfg", num_per_worker=600, run_depth=30, timeout=3000, domains=("ring", "partition"))
+        g.generate_and_replay(ctx, "C06", "Sim_c06_n2.cfg", num_per_worker=300, run_depth=30, timeout=3000, domains=("ring", "partition"))
+    g.record_and_validate(ctx, ntraces=5 if quick else 150, steps=50 if quick else 80, timeout=900 if quick else 3000, domain="mixed")
     return "model_checking"
